@@ -178,13 +178,18 @@ def gen_bracket(rng: random.Random, tier: str):
         shape = [rng.randint(5, 8) for _ in range(d)]
         yield {"d": d, "shape": shape, "seed": rng.randrange(1 << 30),
                "mode": rng.choice([None, "central", "forward_central_backward", "sobel"]),
-               "a": round(rng.uniform(-2, 2), 3), "b": round(rng.uniform(-2, 2), 3)}
+               "a": round(rng.uniform(-2, 2), 3), "b": round(rng.uniform(-2, 2), 3),
+               # Gaussian pre-smoothing of the differentiated field (logv's default is sigma=1): still one linear
+               # derivative family D for both arguments, so C13_bracket_* apply
+               "sigma": rng.choice([None, None, 0.7, 1.0])}
 
 
 def check_bracket(c):
     f = lambda k: random_field(c["seed"] + k, c["d"], c["shape"], 1.0).unsqueeze(0)
     v, w, u = f(0), f(1), f(2)
     kw = dict(mode=c["mode"]) if c["mode"] else {}
+    if c.get("sigma"):
+        kw["sigma"] = c["sigma"]
     lb = lambda p, q: U.lie_bracket(p, q, **kw)
     a, b = c["a"], c["b"]
     tol = 1e-9
@@ -204,6 +209,7 @@ def gen_bch(rng: random.Random, tier: str):
         d = rng.choice([2, 3])
         shape = [rng.randint(5, 8) for _ in range(d)]
         yield {"d": d, "shape": shape, "seed": rng.randrange(1 << 30), "kind": rng.choice(["const", "parallel", "same-axis"]),
+               "sigma": rng.choice([None, None, 0.7, 1.0]),
                "cu": [round(rng.uniform(-0.2, 0.2), 3) for _ in range(d)], "cv": [round(rng.uniform(-0.2, 0.2), 3) for _ in range(d)]}
 
 
@@ -223,10 +229,11 @@ def check_bch(c):
         v = torch.zeros((1, d) + tuple(shape), dtype=torch.float64)
         u[0, 0] = c["cu"][0] * torch.sin(2 * x[..., 1])
         v[0, 0] = c["cv"][0] * torch.cos(3 * x[..., 1])
+    kw = {"sigma": c["sigma"]} if c.get("sigma") else {}
     if U.lie_bracket(v, u).abs().max() > 1e-12:
         return None  # not exactly commuting under this stencil: outside the hypothesis
     for k in range(0, 6):
-        w = U.compose_svfs(u, v, bch_terms=k)
+        w = U.compose_svfs(u, v, bch_terms=k, **kw)
         if (w - (v + u)).abs().max() > 1e-12:
             return (f"C13:bch:commuting:terms={k}", f"compose_svfs of commuting fields differs from v+u by {(w - (v + u)).abs().max():.3e}")
     return None
